@@ -207,6 +207,11 @@ def mt_hygiene(tier, seed, res):
             os.unlink(path)
 
     def leak_of(out, err):
+        # "reads and writes only memory it owns": a sanitizer report with a library frame in one of these programs
+        m0 = re.search(r"AddressSanitizer: (heap-use-after-free|heap-buffer-overflow|attempting double-free|stack-use-after-return|stack-buffer-overflow|global-buffer-overflow)", err)
+        if m0 and re.search(r" in (__)?iv_\w+", err):
+            fr = re.findall(r" in ((?:__)?iv_\w+)", err)[:3]
+            return f"AddressSanitizer: {m0.group(1)} in the library ({' <- '.join(fr)}): it touches memory it has released or does not own"
         u = re.findall(r"LEDGER-(\w+) fds=\d+ heap=\d+ leaks=\d+ unjoined=(\d+)", out)
         if u and u[-1][0] == "END" and u[-1][1] != "0":
             return (f"{u[-1][1]} thread(s) created by the library had exited when the run ended but were never joined or detached "
